@@ -463,9 +463,18 @@ func main() {
 			if si%n != i {
 				continue
 			}
+			// deviation bound per family: pure input families run the default schedule in quick; families with
+			// concurrency or flow-control blocking get schedule exploration in both tiers
 			b := sc.Bound
+			switch sc.Fam {
+			case "window", "interleave", "hpack":
+				b = 1
+			}
 			if tier == "thorough" {
 				b++
+				if sc.Fam == "duplex" || sc.Fam == "window" {
+					b++
+				}
 			}
 			body, check := run(sc)
 			seen := map[string]bool{}
@@ -537,7 +546,7 @@ func main() {
 	rep.Coverage["transitions"] = rep.Counter("points")
 	rep.Coverage["traces_validated_against_impl"] = rep.Counter("executions")
 	rep.Coverage["exhaustive"] = rep.Incomplete == ""
-	rep.Coverage["bounds"] = fmt.Sprintf("%d frame scripts: all single-stream lifecycle shapes (header fragments 1..3 x priority x DATA shapes incl. padding 1/255 and empty END_STREAM frames x end by END_STREAM/trailers/RST/open) in both directions, duplex pairs, all interleavings of two (thorough: three) streams' lifecycles, transport segmentations 1/2/7 bytes and preface splits, receiver windows 0/1/4 blocking DATA with trailers and other streams' headers pending, PUSH_PROMISE with continuations, SETTINGS/PING/GOAWAY/PRIORITY, HPACK table scenarios; default schedule for input families, <=1 deviation for duplex/misc (one more in thorough)", len(scen))
+	rep.Coverage["bounds"] = fmt.Sprintf("%d frame scripts: all single-stream lifecycle shapes (header fragments 1..3 x priority x DATA shapes incl. padding 1/255 and empty END_STREAM frames x end by END_STREAM/trailers/RST/open) in both directions, duplex pairs, all interleavings of two (thorough: three) streams' lifecycles, transport segmentations 1/2/7 bytes and preface splits, receiver windows 0/1/4 blocking DATA with trailers and other streams' headers pending, PUSH_PROMISE with continuations, SETTINGS/PING/GOAWAY/PRIORITY, HPACK table scenarios; default schedule for pure input families and <=1 deviation for duplex/interleave/window/hpack/misc in quick; +1 everywhere (+2 for duplex/window) in thorough", len(scen))
 	rep.Coverage["explanation"] = "each execution runs the real h2 relay (rewritten for the scheduler, tls.Dial replaced by the vtls seam) between two frame-level endpoints with their own HPACK state"
 	rep.Assumptions = []string{"endpoints are harness peers built on x/net/http2.Framer (the same framer the relay uses)", "K <= 3 streams; one SETTINGS_HEADER_TABLE_SIZE change"}
 	rep.Finish()
